@@ -16,7 +16,7 @@ P = {
  "C03": ("Proved: every well-formed RFC 3550/8285 wire image (Spec/Rfc3550.v, padding anywhere, zero-length two-byte elements, legacy blocks) without a reserved id 15 decodes to what it was built from; C03_reencode: EVERY input Packet.Unmarshal accepts into a fresh Packet decodes to a well-formed packet whose Marshal output decodes to the same packet (sole exception, stated: P bit with zero count is refused by Marshal); standalone one-/two-byte views agree with the header. C03_decode_rfc_partial + C03_reserved15_refuted: reserved id 15 is known finding KF-C03-reserved15 (pinned by an upstream test).", "The raw (RFC 3550) view keeps the byte string it was handed under id 0 (C03_raw_view); all three views re-serialise byte-identically (C03_view_reserialise)."),
  "C04": ("Full statement proved: short destination -> short-buffer error, never Panic; sufficient destination -> exactly Marshal() followed by the untouched tail of the destination, for every prior content (C04_*_short, C04_*_exact).", ""),
  "C05": ("Full statement proved: refinement of Set/Del/Get/GetIDs to an ordered map over all op sequences and the four starts, errors leave the header unchanged, Marshal total on every reachable header, accepted values survive the wire (legacy non-multiple-of-4 is the only refusal).", ""),
- "C06": ("Full statement proved parametrically in the payloader: numbering mod 2^16 across calls, timestamps, marker, payloads unchanged, MTU bound given the payloader honours its budget, abs-send-time on the last packet only, padding packets valid, over arbitrary histories (C06_history).", "The clock and the initial timestamp are parameters (verif hook injects them)."),
+ "C06": ("Full statement proved parametrically in the payloader: numbering mod 2^16 across calls, timestamps, marker, payloads unchanged, MTU bound given the payloader honours its budget - also with the abs-send-time element (ids 1-255, one-byte or two-byte form; C06_mtu_abs, after repair D24) on the last packet only, padding packets valid, over arbitrary histories (C06_history).", "The clock and the initial timestamp are parameters (verif hook injects them)."),
  "C07": ("Proved for the counter logic over all interleavings of atomic steps: successive values, rollover count = number of zeros handed out, extended value strictly increasing, fixed and random start ranges. Partial by nature: that sync.Mutex makes the two methods atomic and race-free is a fact about the Go runtime; it is sampled under the race detector with a linearizability check of recorded concurrent histories.", "randutil Intn(n) in [0,n) is a hypothesis of C07_random_start; the verif hook VerifSetRand drives the boundary draws."),
  "C08": ("Proved for all eight payloaders, every MTU 0-65535, every input and every reachable state: no panic (termination included), fragments 1..MTU bytes (Opus: the input), non-empty, owned (no View in state or output, hence independent of later writes to the input: C08_owned_is_independent). 'Input buffer not written' is outside an immutable model and is observed per case with guard bytes.", "Ownership of the implementation's memory is observed (address overlap + overwrite differential), not proved about Go's allocator."),
  "C09": ("Proved: totality of every depacketizer on arbitrary input and arbitrary receiver state (H264, H265, VP8, VP9, Opus, AV1Depacketizer, AV1Packet); reuse = fresh for VP8/VP9 (and H265, Opus by construction). Ownership of retained fragment state (H264Packet, AV1Depacketizer) is decided by correspondence with a store-free model plus the overwrite differential on the implementation.", "Metadata after a failed call is not compared."),
@@ -50,7 +50,7 @@ def main():
             "kind_free_text": "Coq 8.16.1 development (coq/: Base, Model, Spec, Proofs, Properties, Extract), extracted OCaml model runner (runner/driver.ml + extracted model), Go differential harness with property oracles (harness/), Python orchestrator (check), mutation self-test (lib/selftest.py, seeded/)",
         }],
         "checks": [],
-        "notes": "Every check: (1) full make of the Coq development + Print Assumptions under every theorem of Properties/<id>.v + lint (no Admitted/admit/Axiom/Parameter/...); (2) harness rebuilt against /repo with -tags verif; (3) correspondence: corpus + generated cases run on the implementation and on the extracted model, observables compared line by line; (4) the property's own oracle on the implementation; (5) verdict per DESIGN.md section 5 and evidence. Thorough adds a clean rebuild + coqchk -o over all Properties modules (shared stamp), 50-200x the cases, and an in-Coq vm_compute re-evaluation of a 300-case sub-corpus. known_findings.json lists 3 open findings (C03, C14 x2; all pinned by upstream tests) and 23 'fixed:' records.",
+        "notes": "Every check: (1) full make of the Coq development + Print Assumptions under every theorem of Properties/<id>.v + lint (no Admitted/admit/Axiom/Parameter/...); (2) harness rebuilt against /repo with -tags verif; (3) correspondence: corpus + generated cases run on the implementation and on the extracted model, observables compared line by line; (4) the property's own oracle on the implementation; (5) verdict per DESIGN.md section 5 and evidence. Thorough adds a clean rebuild + coqchk -o over all Properties modules (shared stamp), 50-200x the cases, and an in-Coq vm_compute re-evaluation of a 300-case sub-corpus. known_findings.json lists 3 open findings (C03, C14 x2; all pinned by upstream tests) and 24 'fixed:' records.",
         "not_applicable": [],
     }
     for pid in sorted(P):
